@@ -85,6 +85,7 @@ package magic
 //@ func magic.offset$1
 //@   inline
 //@   requires offset >= 0
+//@   ensures [C19_offset_exact] result == (len(raw) > offset && hasPrefix(raw[offset:], sig))
 
 // linesOK(s): every line of s (LF or CRLF terminated; the last one possibly unterminated) is
 // empty or one complete JSON value. Defined by recursion on the first line (trusted spec);
@@ -231,3 +232,13 @@ package magic
 //@ func magic.APK
 //@   ensures [C19_apk_marker] result ==> markerAt(raw, zip_hdr, "AndroidManifest.xml") || markerAt(raw, zip_hdr, "META-INF/com/android/build/gradle/app-metadata.properties") || markerAt(raw, zip_hdr, "classes.dex") || markerAt(raw, zip_hdr, "resources.arsc") || markerAt(raw, zip_hdr, "res/drawable")
 //@   loop 1 unroll
+
+
+// C19: the OpenDocument / EPUB / OpenOffice detectors are exactly "the first entry is the stored
+// file `mimetype` whose content starts with that media type": the name field of the first local
+// file header starts at offset 30 and a stored entry's content follows its name immediately.
+// Checked on the concretely executed initialiser (the detector variables hold concrete closures);
+// what such a closure answers is offset$1's contract above.
+//@ spec entryIs(d, s) = closure(d, "magic.offset$1") && freevar(d, "offset") == 30 && freevar(d, "sig") == s
+//@ func magic.init
+//@   ensures [C19_mimetype_entry] entryIs(Odt, "mimetypeapplication/vnd.oasis.opendocument.text") && entryIs(Ott, "mimetypeapplication/vnd.oasis.opendocument.text-template") && entryIs(Ods, "mimetypeapplication/vnd.oasis.opendocument.spreadsheet") && entryIs(Ots, "mimetypeapplication/vnd.oasis.opendocument.spreadsheet-template") && entryIs(Odp, "mimetypeapplication/vnd.oasis.opendocument.presentation") && entryIs(Otp, "mimetypeapplication/vnd.oasis.opendocument.presentation-template") && entryIs(Odg, "mimetypeapplication/vnd.oasis.opendocument.graphics") && entryIs(Otg, "mimetypeapplication/vnd.oasis.opendocument.graphics-template") && entryIs(Odf, "mimetypeapplication/vnd.oasis.opendocument.formula") && entryIs(Odc, "mimetypeapplication/vnd.oasis.opendocument.chart") && entryIs(Epub, "mimetypeapplication/epub+zip") && entryIs(Sxc, "mimetypeapplication/vnd.sun.xml.calc")
